@@ -5,6 +5,7 @@ import re
 from vlib.flow import Expr, Tracer, chain_calls, chain_calls_ip, edge_label, expr_str, expr_strip_blocks, path_summaries
 from vlib.mir import callee_name, op_const, op_local, op_place, strip_generics
 from rules.send import _root_local, first_fragment_fn, followup_fn, send_fn, _position_local
+from rules import fd as _fdrules
 
 USIZE_MAX = 18446744073709551615
 SIDE_ELEMS = ("OsIpcChannel", "OsIpcSharedMemory", "OsOpaqueIpcChannel")
@@ -273,15 +274,25 @@ def rule_split_order(ctx, cfg, F):
             nm = strip_generics(callee_name(t))
             if (nm in ("core::slice::iter", "std::iter::IntoIterator::into_iter") or nm.endswith("IntoIterator>::into_iter")
                     or strip_generics(t.get("callee") or "") == "std::iter::IntoIterator::into_iter") and t["args"] \
-                    and any(r.kind == "call" and r.id.endswith("CMSG_DATA") for r in tr.roots_of_operand(t["args"][0])):
+                    and (any(r.kind == "call" and r.id.endswith("CMSG_DATA") for r in tr.roots_of_operand(t["args"][0]))
+                         or any(r.kind == "call" and r.block is not None and "Vec<i32>" in g.local_ty(g.term(r.block)["dest"]["l"]) and _fdrules._list_is_cmsg(g, tr, r.block)
+                                for r in tr.roots_of_operand(t["args"][0]))):
                 n += 1
-                R.ok("descriptors are visited by a forward slice iterator over the control-message data", g.loc(b), cfg)
+                R.ok("descriptors are visited by a forward iterator over the control-message data (or an in-order copy of it)", g.loc(b), cfg)
         bad = [b for b, t in g.calls() if strip_generics(callee_name(t)) in ("std::vec::Vec::insert", "std::iter::Iterator::rev", "core::slice::reverse")]
         if bad:
             R.violate("%s:split-reorders" % g.path, "the split loop inserts or reverses", g.path, g.loc(bad[0]), config=cfg)
     f = send_fn(F)
     if f:
-        bad = [b for b, t in f.calls() if strip_generics(callee_name(t)) in ("std::iter::Iterator::rev", "std::vec::Vec::insert", "core::slice::reverse", "core::slice::sort", "core::slice::sort_unstable")]
+        _REORDER = ("std::iter::Iterator::rev", "std::vec::Vec::insert", "core::slice::reverse", "core::slice::sort", "core::slice::sort_unstable", "core::slice::sort_by", "core::slice::sort_by_key",
+                    "core::slice::sort_unstable_by", "core::slice::sort_unstable_by_key", "std::iter::Iterator::partition", "std::iter::Iterator::filter", "std::iter::Iterator::filter_map",
+                    "std::iter::Iterator::skip", "std::iter::Iterator::skip_while", "std::iter::Iterator::step_by", "std::iter::Iterator::take_while", "std::vec::Vec::retain", "std::vec::Vec::swap_remove",
+                    "std::vec::Vec::dedup", "core::slice::swap", "core::slice::rotate_left", "core::slice::rotate_right", "std::vec::Vec::split_off", "std::iter::Iterator::unzip")
+        bad = [b for b, t in f.calls() if strip_generics(callee_name(t)) in _REORDER or strip_generics(t.get("callee") or "") in _REORDER]
+        # only calls that touch the attachment lists (not, say, a sort of something unrelated)
+        trf0 = Tracer(f)
+        bad = [b for b in bad if any(any(r.kind == "param" and r.id in (3, 4) for r in trf0.roots_of_operand(a)) or "OsIpcChannel" in " ".join(f.term(b).get("generics", [])) or "OsIpcSharedMemory" in " ".join(f.term(b).get("generics", []))
+                                     for a in f.term(b)["args"])]
         iters = [b for b, t in f.calls() if strip_generics(callee_name(t)) == "core::slice::iter"]
         n += len(iters)
         if bad:
@@ -1237,6 +1248,8 @@ def rule_split_classify(ctx, cfg, F):
                     yield ("made", "channel")
                 if nm.endswith("::OsIpcSharedMemory::from_fd") and is_fd(t["args"][0]):
                     yield ("made", "region")
+                if nm == "libc::close" and is_fd(t["args"][0]):
+                    yield ("made", "closed")        # a descriptor of a message that is being discarded
         bad = None
         n = 0
         for facts, end in segment_summaries(g, lb, [lb], edge_fact, block_fact):
@@ -1245,6 +1258,8 @@ def rule_split_classify(ctx, cfg, F):
             if not made:
                 continue
             n += 1
+            if made == {"closed"}:
+                continue
             if made == {"channel"} and sock != {True}:
                 bad = "a descriptor becomes a channel on a path that did not establish is_socket(fd) == true for it"
             if made == {"region"} and sock != {False}:
